@@ -173,6 +173,15 @@ def run(ctx: Ctx) -> Result:
     for j_ in range(256):
         v_ = bytearray(pk_); v_[j_ // 8] ^= 1 << (j_ % 8)
         cases.append((f'bit {j_} of the key flipped', cfg, c_, P(sig_) + P(bytes(v_)) + op('CHECK_SIG') + b'\x00', 'F'))
+    # the same signature with its scalar written non-canonically (s + k*L, same value mod L): other bytes, so not the signature
+    L_ = 2**252 + 27742317777372353535851937790883648493
+    s_int = int.from_bytes(sig_[32:], 'little')
+    for k_ in range(1, 16):
+        if s_int + k_ * L_ >= 2**256: break
+        alt = sig_[:32] + (s_int + k_ * L_).to_bytes(32, 'little')
+        cases.append((f'signature scalar s + {k_}*L', cfg, c_, P(alt) + P(pk_) + op('CHECK_SIG') + b'\x00', 'F'))
+        cases.append((f'signature scalar s + {k_}*L (CHECK_SIG_STACK)', cfg, c_, P(alt) + P(ref_msg(c_, 0)) + P(pk_) + op('CHECK_SIG_STACK'), 'F'))
+    cases.append(('CHECK_SIG_STACK honest (control)', cfg, c_, P(sig_) + P(ref_msg(c_, 0)) + P(pk_) + op('CHECK_SIG_STACK'), 'T'))
     # wrong lengths: error, never true
     sk, pk = keys.sks[0], keys.pks[0]
     sig = sk.sign(b'').signature
